@@ -466,6 +466,13 @@ def e2_op_strategies(nparts, ngroups, profile):
         .map(lambda t: ['macro', [['cycle'], ['rmsrv', t[0]]] +
                         ([['down', t[0]]] if t[1] else []) +
                         [['crashrestart']]]),
+        # macro: the operator freezes two servers in a row (one delivery),
+        # then work arrives
+        'stateburst': st.tuples(idx, idx, ops_app_placeholder,
+                                ops_app_placeholder)
+        .map(lambda t: ['macro', [['cycle'], ['state', t[0], 'frozen', []],
+                                  ['state', t[1], 'frozen', []], ['cycle'],
+                                  t[2], t[3], ['cycle']]]),
         # macro: a burst of admin events (more than the master's batch size
         # of 20) reaches the master in one delivery
         'evburst': st.lists(st.tuples(idx, vec(1, 16), st.integers(0, 7)),
@@ -643,7 +650,8 @@ E2_WEIGHTS = {
     'state': 1, 'allocs': 1, 'idg': 1, 'rmidg': 1, 'bl': 1, 'blackout': 1,
     'cellev': 1, 'cellrm': 0, 'rmbucket': 0, 'rmbucketrestart': 0,
     'rmbucketcrash': 0, 'badparent': 0, 'badparentcrash': 0, 'rmrestart': 0, 'evburst': 0, 'retrait': 0, 'rebucket': 0,
-    'bounceplace': 0, 'rebucketwork': 0, 'rmsrvcrashrestart': 0, 'running': 1, 'adv': 2, 'adv_ret': 1, 'tickreboots': 1,
+    'bounceplace': 0, 'rebucketwork': 0, 'rmsrvcrashrestart': 0,
+    'stateburst': 0, 'running': 1, 'adv': 2, 'adv_ret': 1, 'tickreboots': 1,
     'checkreboot': 1, 'integrity': 1, 'enq': 1, 'proc': 1, 'ev': 3,
     'sched': 3, 'cycle': 6, 'restart': 1,
 }
